@@ -38,7 +38,7 @@ VC(f, to) == <<[k |-> "vest_create", from |-> f, to |-> to, amt |-> "30000000000
                [k |-> "send", from |-> f, to |-> to, amt |-> "1000000000000000000"]>>
 Prologue == <<
     Blk(5000, VC("a1", "vx1") \o VC("a2", "vx2") \o
-              <<[k |-> "deploy", from |-> "a3", slots |-> 3], [k |-> "deploy_empty", from |-> "a4"],
+              <<[k |-> "deploy", from |-> "a3", slots |-> 3], [k |-> "deploy_empty", from |-> "a4"], [k |-> "deploy_probe", from |-> "a5"],
                 [k |-> "dao_fund", from |-> "a5", amt |-> "250000000000000000000"],
                 [k |-> "delegate", from |-> "a6", val |-> 0, amt |-> "250000000000000000000"]>>),
     Blk(5000, <<[k |-> "liquidate", from |-> "vx1", to |-> "a1", amt |-> "1000000000000000000000"],
@@ -135,10 +135,12 @@ TxOfKind(h, k, f, d, q, vf) ==
       [] k = 43 -> [k |-> "gov_deposit", from |-> f, id |-> Pick(1..(IF np > 0 THEN np ELSE 1), h), amt |-> Pick({"10", "5000"}, h)]
       [] k = 44 -> [k |-> "ibc_transfer", from |-> f, amt |-> Pick(Amts, h)]
       [] k = 45 -> [k |-> "pc_ibc_transfer", from |-> f, amt |-> Pick(Amts, h)]
+      \* (not in C19 histories: what BLOCKHASH answers for blocks before an import is header history, not state)
+      [] k = 48 -> IF Exports THEN [k |-> "send", from |-> f, to |-> "a1", amt |-> "1"] ELSE [k |-> "call_probe", from |-> f]
       [] k = 46 -> [k |-> "gov_coinomics", from |-> f, enable |-> (Pick(1..2, h) = 1)]
       [] k = 47 -> [k |-> "dao_scatter", from |-> DaoH(h), n |-> Pick({3, 40}, h), salt |-> Len(h), amt |-> "1000"]
 
-KindOf(k0) == IF k0 <= 47 THEN k0 ELSE IF k0 <= 49 THEN 19 ELSE IF k0 = 50 THEN 17 ELSE IF k0 = 51 THEN 15
+KindOf(k0) == IF k0 <= 48 THEN k0 ELSE IF k0 = 49 THEN 19 ELSE IF k0 = 50 THEN 17 ELSE IF k0 = 51 THEN 15
               ELSE IF k0 <= 53 THEN 38 ELSE IF k0 = 54 THEN 41 ELSE IF k0 = 55 THEN 42 ELSE 8
 RandTx(h, slot) == TxOfKind(h, KindOf(Pick(1..56, h)), Pick(Accts, h), Del(h), Liq(h), Vf(h))
 
@@ -163,7 +165,8 @@ WithTopUps(txs) ==
 \* LET definitions containing RandomElement may be re-evaluated at every use; binding the drawn
 \* value with \E x \in {expr} evaluates it exactly once
 Block ==
-    \E raw \in {[j \in 1..Pick(1..5, hist) |-> RandTx(hist, j)]} :
+    \* (one block in six carries no transaction at all)
+    \E raw \in {[j \in 1..Pick(0..5, hist) |-> RandTx(hist, j)]} :
     \E one \in {IF NewVest(raw) > 1 THEN SubSeq(raw, 1, 1) ELSE raw} :   \* at most one new vesting account per block
     \E blk \in {[ev |-> "block",
                   dt |-> Pick({1000, 5000, 5000, 12000, 61000}, hist),
